@@ -37,7 +37,7 @@ MANIFEST_INFO = {
     "engine": "B",
     "design_ref": "DESIGN.md section 5, C04",
     "technique": "explicit-state BFS over TestResult call histories (startTestRun, startTest, six outcomes, stopTest, stopTestRun, stop) on every adapter stack of depth 0..2/3 over TestResult / TextTestResult with failfast off, set on the inner result(s) before wrapping (all of them or only the first), or on the outermost object after wrapping; verdict/stop reference model compared at every state, TextTestResult summary parsed at every stopTestRun; real suites of generated TestCases and testtools.run driven in-process for every outcome history",
-    "level_text": "All well-formed histories up to depth 8 (quick) / 10 (thorough) over 2 (3) tests are applied to every configuration (about 300 quick; listed in the evidence) (bare results, MultiTestResult with 1-2 branches (failfast on both, on the first only, or on the second only and then switched off on the multiplexer), ThreadsafeForwardingResult, ExtendedToOriginalDecorator, TestResultDecorator, Tagger stacked to depth 2 (3), and ExtendedToStreamDecorator for the failfast/stop clauses, also with failfast switched on and off while the run is under way; where a ThreadsafeForwardingResult is outermost, stop() may also arrive through a sibling forwarder on the same target); one test may report two problems (except through ThreadsafeForwardingResult); suites also contain a stdlib TestCase whose only problem is a failing subTest; after every call wasSuccessful() must equal 'no error, failure or unexpected success since the last startTestRun', shouldStop must be false before and true from the first such outcome with failfast (or stop()) on, at the outermost object and at every underlying result, and TextTestResult's summary (count, OK/FAILED, failures=K, one section per problem) must agree. Every outcome history of <= 3 real TestCases is run as a suite against failfast results (dispatch stops right after the first bad test) and through testtools.run in-process, with and without -f (exit status and printed summary).",
+    "level_text": "All well-formed histories up to depth 8 (quick) / 10 (thorough) over 2 (3) tests are applied to every configuration (about 300 quick; listed in the evidence) (bare results, MultiTestResult with 1-2 branches (failfast on both, on the first only, or on the second only and then switched off on the multiplexer), ThreadsafeForwardingResult, ExtendedToOriginalDecorator, TestResultDecorator, Tagger stacked to depth 2 (3), and ExtendedToStreamDecorator for the failfast/stop clauses, also with failfast switched on and off while the run is under way; where a ThreadsafeForwardingResult is outermost, stop() may also arrive through a sibling forwarder on the same target); one test may report two problems (except through ThreadsafeForwardingResult); suites also contain stdlib TestCases whose subtests fail or all pass, a bare failure without details, and a FixtureSuite; after every call wasSuccessful() must equal 'no error, failure or unexpected success since the last startTestRun', shouldStop must be false before and true from the first such outcome with failfast (or stop()) on, at the outermost object and at every underlying result, and TextTestResult's summary (count, OK/FAILED, failures=K, one section per problem) must agree. Every outcome history of <= 3 real TestCases is run as a suite against failfast results (dispatch stops right after the first bad test) and through testtools.run in-process, with and without -f (exit status and printed summary).",
     "level_note": "failfast is set after wrapping only on objects that define a failfast attribute of their own forwarding (MultiTestResult, ExtendedToOriginalDecorator, ExtendedToStreamDecorator, bare results); wasSuccessful() is not demanded of ExtendedToStreamDecorator (the statement names it only for failfast/stop); process exit status is SystemExit.code in-process.",
 }
 
